@@ -61,6 +61,11 @@ def main(pid, runner, argv):
     os.makedirs(REPLAY, exist_ok=True)
     evfile = os.path.join(EVID, pid + ".json")
     alt = os.environ.get("VERIF_REPO")
+    import re as _re
+    if not _re.match(r"^C\d\d$", pid):
+        # stand-alone growth checks (no listed property) never write into evidence/
+        os.makedirs(os.path.join(VERIF, ".build", "evidence-growth"), exist_ok=True)
+        evfile = os.path.join(VERIF, ".build", "evidence-growth", pid + ".json")
     if alt and os.path.realpath(alt) != "/repo":
         # mutation / seed runs against another tree must not overwrite the evidence of the real tree
         os.makedirs(os.path.join(VERIF, ".build", "evidence-other-tree"), exist_ok=True)
